@@ -524,6 +524,18 @@ def rule_terminal(ctx):
     rep = zero_rets.get("repetition")
     ok = rep is not None and rep[1][0] == "call" and mir.strip_copies(rep[1][2][1])[-2:] == ("board", "zkey")
     ctx.check(ok, "alpha_beta:repetition-draw", "position_reached(current key) returns 0", b.where(rep[0] if rep else 0), bad_what="no `position_reached(self.board.zkey) -> 0` exit")
+    if ok:
+        # asked of the board the tree is walked on (its record grows with every move made in the tree), not of the root copy
+        recv = mir.strip_copies(mir.strip_refs(rep[1][2][0]))
+        same = recv[0] == "field" and recv[-1] == "board" and mir.strip_copies(rep[1][2][1])[:-1] == recv
+        ctx.check(same, "alpha_beta:repetition-on-the-walked-board", "the repetition test asks the walked board about its own key: self.board.position_reached(self.board.zkey)", b.where(rep[0]),
+                  bad_what="the repetition test is `%s`: it asks another board than the one whose key it passes (the root copy does not know the positions reached inside the tree)" % expr_str(rep[1])[:120])
+    # ... and the fifty-move test reads the walked board's clock
+    if "fifty" in zero_rets:
+        fc = [c for c in C.constraints_for(ix, b, sym, zero_rets["fifty"]) if "get_halfmove_clock" in c[0]]
+        on_walked = any(any(isinstance(x, tuple) and x[0] == "call" and x[1] == "board::Board::get_halfmove_clock" and mir.strip_copies(mir.strip_refs(x[2][0]))[-1:] == ("board",) for x in walk(c[3])) for c in fc)
+        ctx.check(on_walked, "alpha_beta:fifty-on-the-walked-board", "the fifty-move test reads self.board's clock", b.where(zero_rets["fifty"]),
+                  bad_what="the fifty-move test does not read the clock of the board the tree is walked on")
     # "iff": nothing else decides these two draws
     for name, blk in (("fifty", zero_rets.get("fifty")), ("repetition", rep[0] if rep else None)):
         if blk is None:
